@@ -4,7 +4,7 @@ import random
 LEVEL = "exploration"
 BATCH = 8
 BATCH_TIMEOUT = 3000
-RULE = ("case = (data width, buffer depths 2..16, base address, read-modify-write on/off, traffic class: full-width INCR / "
+RULE = ("[CORE CASES: a share of the cases (names core*) runs the same front-end and oracle on a port of the real LiteDRAMCrossbar + LiteDRAMController with the reference DRAM on DFI, refresh running, DFI protocol events of the reference model added to the witnesses] case = (data width, buffer depths 2..16, base address, read-modify-write on/off, traffic class: full-width INCR / "
         "WRAP / FIXED / mixed / narrow sizes, independent stall profiles on AW, W, B, AR, R and on the native side, seed) with "
         "LiteDRAMAXI2Native on the pulsed core stub; oracle: beat addresses recomputed independently from (addr, len, size, "
         "burst); one B per AW, same ID, AW order, B.valid not before the memory side took the burst's last data beat; len+1 R "
